@@ -57,6 +57,7 @@ def full_support_target(G, names, drop=None, rnd=None, zero=False):
                     continue
                 m[a + b] = w; m[b + a] = w
         ej[name] = m
+    if rnd is not None and rnd.random() < 0.5: ej = dict(reversed(list(ej.items())))        # dict order carries no meaning: EDGE_NAMES fixes the index of a topology
     M = JointExcessJointDegreeMatrices(); M.ejks = ej; M.topology_names = list(names)
     return M
 
@@ -76,7 +77,7 @@ def motif_shape_ok(H, names):
         if "cycle" in name and any(d != 2 for _, d in g.degree()): return f"motif {mid} ({name}) is not a cycle: {sorted(g.edges())}"
     return None
 
-def run_rewire(net, target, conv, search, seed, budget=40000):
+def run_rewire(net, target, conv, search, seed, budget=40000, zero_draws=False):
     params = {TN.NETWORK: net, TN.EJKS: target}
     if conv is not None: params[TN.CONVERGENCE_LIMIT] = conv
     if search is not None: params[TN.SEARCH_LIMIT] = search
@@ -87,7 +88,9 @@ def run_rewire(net, target, conv, search, seed, budget=40000):
         calls[0] += 1
         if calls[0] > budget: raise Budget()
     saved = (mc.random.random, ds.random.choice)
-    def rr(): tick(); return rng.random()
+    def rr():
+        tick(); x = rng.random()
+        return 0.0 if (zero_draws and x < 0.34) else x          # 0.0 is a value random.random() can return: exercise it
     def ch(seq): tick(); return seq[rng.randrange(len(seq))]
     mc.random.random = rr; ds.random.choice = ch
     try:
@@ -111,7 +114,7 @@ def check_case(c):
     in_edges = {frozenset(e) for e in G.edges()}
     def bad(clause, detail): V.append((clause, detail))
     for conv in c["convs"]:
-        H, r = run_rewire(net, target, conv, c.get("search"), c["seed"])
+        H, r = run_rewire(net, target, conv, c.get("search"), c["seed"], zero_draws=c.get("zero_draws", False))
         if snapshot(G) != before: bad("C11.rewire.input_untouched", f"the input network was modified (convergence limit {conv})"); return V
         if H is None: continue          # did not terminate within the draw budget: liveness is not claimed
         tag = f"(limit {conv}, search {c.get('search')}, seed {c['seed']})"
@@ -142,7 +145,8 @@ def gen_cases(tier, rnd, c12=False):
     for i in range(60 if quick else 600):
         names, T = mixes[i % len(mixes)]; N = rnd.randint(8, 14 if quick else 24)
         jds = []
-        for _ in range(N): jds.append(tuple(rnd.choice([0, 1, 1, 2, 3] if names[t] == "2-clique" else [0, 0, 1, 1, 2]) for t in range(T)))
+        dense = i % 4 == 3          # many motifs per vertex: motifs that share vertices (self-loop / duplicate-edge corner cases)
+        for _ in range(N): jds.append(tuple(rnd.choice([0, 1, 1, 2, 3] if names[t] == "2-clique" else ([1, 2, 2, 3] if dense else [0, 0, 1, 1, 2])) for t in range(T)))
         # pad to satisfy the handshake condition
         for t in range(T):
             size = SHAPES[names[t]][0]
@@ -150,6 +154,6 @@ def gen_cases(tier, rnd, c12=False):
         if sum(sum(j) for j in jds) == 0: continue
         convs = rnd.choice([[0, 1, 2], [None], [0, 1, 2, 5], [0], [2, 5]])
         case = dict(names=names, jds=jds, net_seed=rnd.randint(0, 10 ** 6), seed=rnd.randint(0, 10 ** 6), convs=convs, search=rnd.choice([None, 1, 20, 20]))
-        if c12: case["drop"] = rnd.choice([0.3, 0.6, 0.9]); case["zero"] = rnd.random() < 0.5
+        if c12: case["drop"] = rnd.choice([0.3, 0.6, 0.9]); case["zero"] = rnd.random() < 0.5; case["zero_draws"] = rnd.random() < 0.5
         out.append(case)
     return out
